@@ -303,14 +303,18 @@ template <class Key, class Value, class... Policies>
 bool vyukov_hash_map<Key, Value, Policies...>::erase(const key_type& key) {
   accessor acc;
   bool result = do_extract(key, acc);
-  traits::reclaim(acc);
+  if (result) {
+    traits::reclaim(acc);
+  }
   return result;
 }
 
 template <class Key, class Value, class... Policies>
 bool vyukov_hash_map<Key, Value, Policies...>::extract(const key_type& key, accessor& acc) {
   bool result = do_extract(key, acc);
-  traits::reclaim_internal(acc);
+  if (result) {
+    traits::reclaim_internal(acc);
+  }
   return result;
 }
 
